@@ -512,6 +512,9 @@ def build(repo, size='full'):
     c = [a.xyz for a in find_atoms(hpx, 'ASP', 'CG', resnum=25)]
     fam('hpx_asp25', sphere(hpx, c, 7.0))
     fam('hpx_asp25s', sphere(hpx, c, 4.0, keep_water=0), nvar=2)
+    # a core large enough for groups to count as buried (> 280 heavy atoms
+    # within 15 A): burial-dependent code paths do not run in small fragments
+    fam('hpx_core', sphere(hpx, c, 13.0, keep_water=0), nvar=0, limit=1100)
     tri = acid_triad(hpx)
     if tri:
         fam('hpx_triad', tri, nvar=2)
